@@ -20,6 +20,7 @@ type SecretFactory struct {
 	mu       sync.Mutex
 	secrets  []*Secret
 	FailNext int // n-th next creation fails (1 = the very next)
+	OnCreate func(kind string, b []byte) // observer of every new secret's bytes (taint tracking)
 
 	DoubleClose   int
 	UseAfterClose int
@@ -53,12 +54,18 @@ func (f *SecretFactory) fail() bool {
 	defer f.mu.Unlock()
 	if f.FailNext > 0 {
 		f.FailNext--
-		return f.FailNext == 0
+		if f.FailNext == 0 {
+			f.W.Emit(Event{"e": "ifault", "p": f.Proc, "what": "secret-factory"})
+			return true
+		}
 	}
 	return false
 }
 
 func (f *SecretFactory) add(kind string, b []byte) *Secret {
+	if f.OnCreate != nil {
+		f.OnCreate(kind, b)
+	}
 	s := &Secret{f: f, Kind: kind, Op: f.op(), bytes: b, FP: FP(b)}
 	s.cond = sync.NewCond(&s.mu)
 	f.mu.Lock()
@@ -148,12 +155,13 @@ func (s *Secret) Close() error {
 	for s.users > 0 {
 		s.cond.Wait()
 	}
+	// log first, then flip the flag: whoever observes the secret as released finds the event already in the log
+	s.f.W.Emit(Event{"e": "free", "p": s.f.Proc, "sid": s.ID, "op": s.f.op()})
 	s.closed = true
 	for i := range s.bytes {
 		s.bytes[i] = 0
 	}
 	s.mu.Unlock()
-	s.f.W.Emit(Event{"e": "free", "p": s.f.Proc, "sid": s.ID, "op": s.f.op()})
 	return nil
 }
 
